@@ -518,7 +518,7 @@ def run(ctx):
     replay(ctx, ctx.replay_case)
     return apply_fragment(ctx)
   thorough = ctx.thorough()
-  maxlen = 6 if thorough else 5
+  maxlen = getattr(ctx, "lwsp_maxlen", None) or (6 if thorough else 5)
   procs = 4
 
   # 1. the design, exhaustively on the small model (runs while the implementation is driven)
